@@ -328,11 +328,17 @@ func (n *Node) GeneratorAt(height uint32, slot int) (*Key, error) {
 	return k, nil
 }
 
-// LastGeneratedHeight scans the current chain (within the BFT window) for the newest block generated by addr.
+// LastGeneratedHeight scans the current chain (within the BFT window of the next block) for the newest block generated by addr.
 func (n *Node) LastGeneratedHeight(addr []byte) uint32 {
-	tip := n.Tip().Header
-	lo := int64(tip.Height) - int64(3*n.Cfg.BatchSize) + 1
-	for h := int64(tip.Height); h >= lo && h > int64(n.Cfg.GenesisHeight); h-- {
+	return n.LastGeneratedHeightBelow(addr, n.Tip().Header.Height+1)
+}
+
+// LastGeneratedHeightBelow is the honest maxHeightGenerated for a block at `height` on the current chain: the newest block by
+// addr among the 3*BatchSize heights below it (the window the engine keeps when it processes a block at that height). A
+// sibling of the tip has to use height = tip height: its window reaches one block further down than the next block's.
+func (n *Node) LastGeneratedHeightBelow(addr []byte, height uint32) uint32 {
+	lo := int64(height) - int64(3*n.Cfg.BatchSize)
+	for h := int64(height) - 1; h >= lo && h > int64(n.Cfg.GenesisHeight); h-- {
 		hd, err := n.Chain.DataAccess().GetBlockHeaderByHeight(uint32(h))
 		if err != nil {
 			break
